@@ -3,7 +3,7 @@
    a list of fields (each a list of N: bytes or numbers); the result is a list of N in the same
    canonical serialisation the Go harness prints for the implementation. *)
 From Coq Require Import NArith List Bool.
-From StunV Require Import Base.ListAux Base.Outcome Base.Bytes Base.Slice Model.MsgType Model.Message Model.Rfc
+From StunV Require Import Base.ListAux Base.Outcome Base.Bytes Base.Slice Model.MsgType Model.Message Model.Rfc Model.RfcAttrs
   Model.Crc32 Model.Sha1 Model.Sha256 Model.Md5 Model.Hmac Model.Attrs Model.Ops.
 Import ListNotations.
 Open Scope N_scope.
@@ -152,6 +152,79 @@ Definition run_c03 (sub : N) (args : list (list N)) : list N :=
   | _, _ => bad_case
   end.
 
+(* C06 / C07: typed getters and checkers.
+   getter ids: 1 XOR address (type t)  2 mapped address (type t)  3 text (type t)  4 ERROR-CODE
+               5 UNKNOWN-ATTRIBUTES  6 MESSAGE-INTEGRITY check (key)  7 FINGERPRINT check *)
+Definition ser_addr (r : outcome (list byte * N)) : list N :=
+  st_code r :: match r with Ok (ip, port) => port :: lenN ip :: ip | _ => [] end.
+Definition run_getter (g t : N) (key : list byte) (m : msg) : list N * msg :=
+  match g with
+  | 1 => (ser_addr (get_xor_addr_gen CUR_XOR_FIXED m t), m)
+  | 2 => (ser_addr (get_mapped_addr m t), m)
+  | 3 => let r := get_text m t in
+         (st_code r :: match r with Ok v => lenN v :: v | _ => [] end, m)
+  | 4 => let r := get_error_code m in
+         (st_code r :: match r with Ok (c, reason) => c :: lenN reason :: reason | _ => [] end, m)
+  | 5 => let r := get_unknown_gen CUR_UNKNOWN_ESZ m in
+         (st_code r :: match r with Ok ts => lenN ts :: ts | _ => [] end, m)
+  | 6 => let '(m', r) := mi_check pool_new_sha1 m key in ([st_code r], m')
+  | _ => ([st_code (fp_check m)], m)
+  end.
+
+(* 701 <data> <extra> <[getter; type]> <key>: decode data in a buffer with spare capacity [extra], run
+   the getter; result: decode status; getter status and value; digest of the message afterwards *)
+Definition run_c07 (sub : N) (args : list (list N)) : list N :=
+  match sub, args with
+  | 1, [data; extra; [g; t]; key] =>
+    let '(m, st) := decode (msg_with_raw data extra) in
+    match st with
+    | Ok _ =>
+      let '(out, m') := run_getter g t key m in
+      [0] ++ out ++ (match out with 2 :: _ => [] | _ => [digest (ser_msg m')] end)
+    | _ => [st_code st]
+    end
+  | _, _ => bad_case
+  end.
+
+(* 601 <tid> <setter> <[getter; type]> <key>: Build(type, tid, setter) on a new message, decode the raw
+   bytes into a fresh message, read the attribute back.
+   602 <tid> <[kind; num]> <bytes/types>: the Spec's RFC encoding of a value (kind 1 XOR address: num =
+   port, bytes = ip; 2 mapped address; 3 ERROR-CODE: num = code, bytes = reason; 4 UNKNOWN-ATTRIBUTES:
+   types) — the harness prints the value bytes the library's setter wrote.
+   603 <tid> <[kind]> <value>: the Spec's RFC decoding of a value — the harness prints what the library's
+   getter read from an attribute holding it. *)
+Definition run_c06 (sub : N) (args : list (list N)) : list N :=
+  match sub, args with
+  | 1, [tid; sf; [g; t]; key] =>
+    match parse_setter sf with
+    | None => bad_case
+    | Some s =>
+      let '(m, st) := build new_msg [SType 1 0; STid tid; s] in
+      match st with
+      | Ok _ =>
+        let raw := bytes (m_raw m) in
+        let '(md, std) := decode (msg_with_raw raw []) in
+        [0; 0; lenN raw] ++ raw ++ [st_code std] ++ fst (run_getter g t key md)
+      | _ => [st_code st; err_kind st]
+      end
+    end
+  | 2, [tid; [kind; num]; bs] =>
+    match kind with
+    | 1 => rfc_xor_encode (canon_ip bs) num tid
+    | 2 => rfc_mapped_encode (canon_ip bs) num
+    | 3 => rfc_error_encode num bs
+    | _ => rfc_unknown_encode bs
+    end
+  | 3, [tid; [kind]; v] =>
+    match kind with
+    | 1 => match rfc_xor_decode v tid with Some (ip, port) => 1 :: port :: lenN ip :: ip | None => [0] end
+    | 2 => match rfc_mapped_decode v with Some (ip, port) => 1 :: port :: lenN ip :: ip | None => [0] end
+    | 3 => match rfc_error_decode v with Some (c, r) => 1 :: c :: lenN r :: r | None => [0] end
+    | _ => match rfc_unknown_decode v with Some ts => 1 :: lenN ts :: ts | None => [0] end
+    end
+  | _, _ => bad_case
+  end.
+
 (* C18: pooled HMAC histories.
    1801 <[algo]> <op> <op> ...   algo 1 = SHA-1, 256 = SHA-256
    op = [1; key...] acquire | [2; bytes...] write | [3; prefix...] sum | [4] reset | [5] put
@@ -197,6 +270,8 @@ Definition run (cmd : N) (args : list (list N)) : list N :=
   | 1 => run_c01 (cmd mod 100) args
   | 2 => run_c02 (cmd mod 100) args
   | 3 => run_c03 (cmd mod 100) args
+  | 6 => run_c06 (cmd mod 100) args
+  | 7 => run_c07 (cmd mod 100) args
   | 18 => run_c18 (cmd mod 100) args
   | 19 => run_c19 (cmd mod 100) args
   | _ => bad_case
